@@ -1,9 +1,11 @@
 """C16 (one hop, function level): the real MIR of ArpRouter::demux (through the shim crate), IpTable, Ipv4Header::serialize /
 Ipv4HeaderBuilder::build and the real Message.  The machine (Arp lookup) and tokio::spawn are modelled: spawn records the
-future's captured variables (the resolved next hop, slot and the message to be sent) and does not run it."""
+future's captured variables (the next hop to resolve, slot and the message to be sent); the coroutine body of that forwarding task
+is then run on its own with the outcome of `Arp::resolve(..).await` chosen by the model (resolved to a symbolic MAC / failed) and
+`Pci::open` / `PciSession::send_pci` recording what would be put on the wire."""
 import re, time, traceback
 import z3
-from .core import Int, Agg, Ref, ListV, MapV, Opaque, Panic, Unsupported, PathEnd, sym_int, mk_bool, b_and, b_or, b_not, b_ite_int, clone_val, UNIT, some, none
+from .core import Suspended, Int, Agg, Ref, ListV, MapV, Opaque, Panic, Unsupported, PathEnd, sym_int, mk_bool, b_and, b_or, b_not, b_ite_int, clone_val, UNIT, some, none
 from . import loader
 from .models import deref
 from .reasmspec import Hdr, _valid, SpecViolation
@@ -23,6 +25,15 @@ def install_env(ex):
     def tokio_spawn(ex, c, a):
         ex.env['spawned'].append(a[0])
         return Opaque('JoinHandle')
+
+    @M(r'^Pci::open$')
+    def pci_open(ex, c, a):
+        return Agg('Arc', {0: Agg('PciSessionStub', {0: a[1]})})
+
+    @M(r'^PciSession::send_pci$|^pci_session::PciSession::send_pci$')
+    def pci_send(ex, c, a):
+        ex.env.setdefault('pci_sends', []).append({'slot': deref(a[0]).f[0], 'message': a[1], 'mac': a[2], 'receiver': a[3]})
+        return Agg('Result', {0: UNIT}, 0)
 
 
 def run_unit(ex, H, unit, res):
@@ -122,7 +133,51 @@ def run_unit(ex, H, unit, res):
             if not okv:
                 what = 'time-to-live is not decremented by exactly one' if i == 8 else (f'header byte {i} changed' if i < 20 else f'payload byte {i - 20} changed')
                 raise SpecViolation('forwarded-packet-altered:' + ('ttl' if i == 8 else ('header' if i < 20 else 'payload')), 'the forwarded packet differs from the received one: ' + what, m)
-        return 'forwarded'
+        # ---- the forwarding task itself: its coroutine body is run with the outcome of the ARP resolution chosen by the model
+        body_fn = [f for n, f in ex.fns.items() if n.endswith('demux::{closure#0}') and 'arp_router' in n]
+        if len(body_fn) != 1:
+            raise Unsupported('coroutine body of the forwarding task not found')
+        outcome = ex.choose(['arp-resolved', 'arp-failed'])
+        mac = sym_int('resolved_mac', 64)
+
+        def poll_hook(ex, c, a):
+            if 'Arp::resolve' not in c:
+                return None
+            res_v = Agg('Result', {0: mac}, 0) if outcome == 'arp-resolved' else Agg('Result', {0: Agg('NoResponseError', {})}, 1)
+            return Agg('Poll', {0: res_v}, 0)
+        ex.env['poll_hook'] = poll_hook
+        ex.env['protocols']['Pci'] = Opaque('pci')
+        ex.env['pci_sends'] = []
+        fh = {'f': fut}
+        try:
+            ex.run(body_fn[0], [Agg('Pin', {0: Ref(fh, 'f')}), Ref({'cx': Opaque('task context')}, 'cx')])
+        except Suspended as sp_:
+            raise Unsupported('forwarding task suspended at ' + sp_.callee[:80])
+        sends = ex.env['pci_sends']
+        res['obligations'] += 1
+        if outcome == 'arp-failed':
+            if sends:
+                raise SpecViolation('task:sent-although-next-hop-unresolved', 'the next hop could not be resolved but the datagram was put on the wire anyway (a frame without a resolved destination is a broadcast)')
+            return 'forwarding task: next hop unresolved, dropped'
+        if len(sends) != 1:
+            raise SpecViolation('task:not-sent-exactly-once', f'the next hop was resolved but the forwarding task sent {len(sends)} frames')
+        sd = sends[0]
+        okv, m = _valid(ex, ex.binop('Eq', sd['slot'], slot, False))
+        if not okv:
+            raise SpecViolation('task:sent-on-other-interface', 'the forwarding task sends on another interface than the one the route names', m)
+        if sd['mac'].variant != 1:
+            raise SpecViolation('task:sent-as-broadcast', 'the forwarding task sends the datagram without a destination hardware address (broadcast) although the next hop was resolved')
+        okv, m = _valid(ex, ex.binop('Eq', sd['mac'].f[0], mac, False))
+        if not okv:
+            raise SpecViolation('task:sent-to-other-mac', 'the forwarding task addresses the frame to another hardware address than the resolved one', m)
+        bs2 = udpspec.real_msg_bytes(ex, sd['message'])
+        if len(bs2) != len(bs):
+            raise SpecViolation('task:forwarded-length', f'the forwarding task sends {len(bs2)} bytes instead of {len(bs)}')
+        for i, (x, y) in enumerate(zip(bs2, bs)):
+            okv, m = _valid(ex, ex.binop('Eq', x, y, False))
+            if not okv:
+                raise SpecViolation('task:forwarded-packet-altered', f'byte {i} of the frame sent by the forwarding task differs from the packet prepared by demux', m)
+        return 'forwarded; task: resolved -> one unicast frame on the route\'s interface'
 
     def on_end(ex, kind, r):
         res['paths'] += 1
